@@ -162,11 +162,41 @@ def run(R):
             return 'RecursionError'
     # every entry point of the PARENT module (module-level parse, rules, the class) is observed before and after the
     # derived modules are compiled and used
-    ENTRIES = [None, 'W', 'L', 'D', 'K']
-    TXE = TX[:40] + ['x', 'xa', 'ax', '(x)', '<a>', 'l', 'a0']
-    for uid in range(n):
-        depth = rnd.choice([2, 2, 3, 3])
-        levels = gen_levels(rnd, depth, with_ignore=rnd.random() < 0.5)
+    ENTRIES0 = [None, 'W', 'L', 'D', 'K']
+    TXE0 = TX[:40] + ['x', 'xa', 'ax', '(x)', '<a>', 'l', 'a0']
+    # overrides that can fail after consuming input where the parent's definition could not: a rule that is a single
+    # token in the parent (so a reference to it needs no checkpoint THERE) is referenced by the parent's rules in every
+    # position that has to back up; the child's definition starts to match and then fails
+    special = []
+    CTX = ['Item*', 'Item+', 'Item{1,2}', 'Item | Other', 'Opt(Item)', '(Item // ",")', 'Item between { left: "+" }', '[Item, "!"] | Other',
+           'Longest(Item, Other)', '[Opt(Item), Other?]', 'Skip(Item)', '(Item | Other){2}', 'Expect(Item | Other) >> Other', '(Item // Other) | Other']
+    OVR = ['"<" >> /[a-z]+/ << ">"', '["<", super.Item]', '"<"+ >> ";"', '("<" >> super.Item) | ("<<" >> "!")']
+    for ci, ctx in enumerate(CTX):
+        for oi, ovr in enumerate(OVR):
+            base = Level('a', {'start': '[Body, /.*/]', 'Body': ctx, 'Item': '/[a-z]+;/', 'Other': '/[<a-z]+[!;]?/'})
+            three = (ci + oi) % 3
+            if three == 0:
+                chain_ = [base, Level('b', {'Item': ovr}, parent=base)]
+            elif three == 1:
+                mid = Level('b', {'Nb': 'Item'}, parent=base)
+                chain_ = [base, mid, Level('c', {'Item': ovr}, parent=mid)]
+            else:
+                mid = Level('b', {'Item': ovr}, parent=base)
+                chain_ = [base, mid, Level('c', {'Other': '/[<a-z]+[!;>]?/'}, parent=mid)]
+            special.append(chain_)
+    if R.tier == 'quick':
+        special = special[::2] if R.seed % 2 else special[1::2] + special[:8]
+    TXM = ['', '<ab><cd', '<ab', '<ab>', '<ab;', '<<;', '<', 'ab;', 'ab;cd;', '<ab>,<cd', '<ab>+<cd', '<ab>!', '<ab;<', '<<!', '<<', '<ab>,<cd>', '<ab>+<cd>',
+           '<ab><cd>', 'ab', '<ab!', '<;', '<<;<', '<ab;,<cd', '<ab;+<cd', '<ab;!', 'ab;<', '<ab;<cd;', '<ab;<cd']
+    for uid in range(n + len(special)):
+        if uid < n:
+            depth = rnd.choice([2, 2, 3, 3])
+            levels = gen_levels(rnd, depth, with_ignore=rnd.random() < 0.5)
+            ENTRIES, TXE, TXU = ENTRIES0, TXE0, TX
+        else:
+            levels = special[uid - n]
+            depth = len(levels)
+            ENTRIES, TXE, TXU = [None, 'Body', 'Item', 'Other'], TXM, TXM
         if uid % 7 == 3:
             for lv in levels:
                 lv.dotted = True             # qualified grammar names (packages)
@@ -198,7 +228,7 @@ def run(R):
                 break
             bad = None
             nto = 0
-            for t in TX:
+            for t in TXU:
                 if nto >= 3:
                     break
                 got, want = safe_outcome(g, t), safe_outcome(flat, t)
@@ -227,10 +257,10 @@ def run(R):
             lv, g = levels[-1], mods[-1]
             flat = Grammar(flatten(lv))
             own = set(lv.rules)
-            for rname in ('W', 'L', 'D', 'K'):
+            for rname in [e for e in ENTRIES if e]:
                 if rname in own:
                     continue
-                for t in TX[:60]:
+                for t in TXU[:60]:
                     got, want = safe_outcome(g, t, rname), safe_outcome(flat, t, rname)
                     R.count('inherited-entry', (uid, rname, t), nontrivial=True)
                     if strip_names(got) != strip_names(want):
@@ -244,7 +274,7 @@ def run(R):
         rule='chains of 2-3 named grammars over a 4-rule base: every mix of overridden / inherited / new rules, super references at '
              'every level, ignore declarations (anonymous or named) in base and/or derived; each level compared, on ~250 inputs, with the '
              'FLATTENED grammar (rules of the most derived definition, super.R = a copy of the parent\'s definition with late-bound '
-             'references); modules used in random order; parent behaviour before/after; inherited entry points',
+             'references); modules used in random order; parent behaviour before/after; inherited entry points; chains in which a rule that is one token in the parent, referenced there under every backing-up construct, is overridden by a definition that can fail after consuming',
         checker_cmd='cd /verif/coq && make -f Makefile.coq && coqc -R . SV Props/C13.v')
 
 
